@@ -218,16 +218,43 @@ def check_golden(case, stats):
         raise Violation(case, "%s: token listing length differs from the golden file" % case["file"])
 
 
+def check_script(case, stats):
+    """scripts.generate_tokens.main, in-process, over several corpus files with one parser: printed listing == goldens"""
+    import contextlib
+    import io
+    import sys
+    import scripts.generate_tokens as gt
+    files = [os.path.join(REPO, "testdata", "good", f) for f in case["files"]]
+    buf = io.StringIO()
+    old = sys.argv
+    sys.argv = ["generate_tokens"] + files
+    try:
+        with contextlib.redirect_stdout(buf):
+            gt.main()
+    finally:
+        sys.argv = old
+    want = "".join(open(f + ".tokens", encoding="utf8", newline="").read() for f in files)
+    stats.case(tuple(case["files"]), True, sample=case)
+    if buf.getvalue() != want:
+        g, w = buf.getvalue().split("\n"), want.split("\n")
+        for i, (x, y) in enumerate(zip(g, w)):
+            if x != y:
+                raise Violation(case, "generate_tokens over %r: output line %d is %r, goldens say %r" % (case["files"], i + 1, x, y))
+        raise Violation(case, "generate_tokens over %r printed %d lines, goldens have %d" % (case["files"], len(g), len(w)))
+
+
 def unit_golden(a):
     stats = Stats()
     files = [f for f in sorted(glob.glob(os.path.join(REPO, "testdata", "good", "*.feature"))) if os.path.exists(f + ".tokens")]
+    names = [os.path.basename(f) for f in files]
+    sweep(stats, [{"sub": "script", "files": names[i:i + 6]} for i in range(0, len(names), 6)] + [{"sub": "script", "files": names[::-1][:10]}], check_script)
     sweep(stats, [{"sub": "golden", "file": os.path.basename(f)} for f in files], check_golden)
     sweep(stats, [{"sub": "text", "text": t, "label": "corpus"} for n, t in noisy.corpus_texts()], check_text)
     return stats
 
 
 def replay(case, stats):
-    return {"kinds": check_kinds, "text": check_text, "listing": check_listing, "golden": check_golden}[case["sub"]](case, stats)
+    return {"kinds": check_kinds, "text": check_text, "listing": check_listing, "golden": check_golden, "script": check_script}[case["sub"]](case, stats)
 
 
 def run(ctx):
